@@ -133,6 +133,14 @@ func (d *idxDom) open(kind string) error {
 		AddIndex(badgerstore.Index{Name: "kg", Key: func(v interface{}) []byte {
 			x := v.(idxVal)
 			return []byte(x.G + "_" + x.K)
+		}}).
+		AddIndex(badgerstore.Index{Name: "e", Key: func(v interface{}) []byte {
+			// always indexed, under the empty (non-nil) key when K is empty; values of group "n" are not indexed
+			x := v.(idxVal)
+			if x.G == "n" {
+				return nil
+			}
+			return []byte(x.K)
 		}})
 	d.qs.OnQueryChange(func(qc store.QueryChange) {
 		flags := ""
@@ -182,7 +190,7 @@ func errClass(err error) string {
 }
 
 var idxKeys = []string{"a", "ab", "abc", "b", "x", "ax", "", "b", "a"}
-var idxGroups = []string{"g", "h", "g"}
+var idxGroups = []string{"g", "h", "g", "n"}
 var idxIDs = []string{"1", "2", "3", "4", "a.b"}
 
 func (d *idxDom) Gen(r *gen.R, tier string, emit func(string)) {
@@ -201,7 +209,7 @@ func (d *idxDom) Gen(r *gen.R, tier string, emit func(string)) {
 		}
 		if kind != "mock" {
 			for w := 0; w < 3; w++ {
-				emit(wire.Line("watch", r.Pick([]string{"k", "kg"}), r.Pick(prefixes[:10]), r.Pick([]string{"none", "none", "even", "hasx"})))
+				emit(wire.Line("watch", r.Pick([]string{"k", "kg", "e"}), r.Pick(prefixes[:10]), r.Pick([]string{"none", "none", "even", "hasx"})))
 			}
 			if r.Bool() {
 				emit(wire.Line("init"))
@@ -241,16 +249,19 @@ func (d *idxDom) Gen(r *gen.R, tier string, emit func(string)) {
 				emit(wire.Line("flush"))
 				nq := 1 + r.Intn(4)
 				for q := 0; q < nq; q++ {
-					emit(wire.Line("query", r.Pick([]string{"k", "kg"}), r.Pick(prefixes), r.Pick([]string{"none", "none", "even", "hasx"}),
+					emit(wire.Line("query", r.Pick([]string{"k", "kg", "e"}), r.Pick(prefixes), r.Pick([]string{"none", "none", "even", "hasx"}),
 						r.Pick([]string{"0", "0", "1", "2", "10"}), r.Pick([]string{"-1", "-1", "0", "1", "2", "3", "100"}), wire.Bool(r.Chance(1, 3))))
 				}
 			}
 		}
 		if kind != "mock" {
 			emit(wire.Line("flush"))
-			for _, ix := range []string{"k", "kg"} {
-				emit(wire.Line("query", ix, "", "none", "0", "-1", "F"))
-				emit(wire.Line("query", ix, "", "none", "0", "-1", "T"))
+			for _, ix := range []string{"k", "kg", "e"} {
+				// systematic probes: every index, prefixes that end at a key boundary (with the separator byte)
+				for _, pre := range []string{"", "a", "a\x00", "ab\x00", "b\x00", "g_a\x00", "g_", "\x00"} {
+					emit(wire.Line("query", ix, pre, "none", "0", "-1", "F"))
+					emit(wire.Line("query", ix, pre, "none", "0", "-1", "T"))
+				}
 			}
 			emit(wire.Line("rebuild"))
 			emit(wire.Line("query", "k", "", "none", "0", "-1", "F"))
@@ -365,6 +376,7 @@ func (d *idxDom) Exec(a []string) string {
 		case "corrupt":
 			d.qs.Flush()
 			d.db.DropPrefix([]byte("k:"))
+			d.db.DropPrefix([]byte("e:"))
 			d.db.Update(func(txn *badger.Txn) error {
 				return txn.Set([]byte("kg:zzz\x00ghost"), nil)
 			})
